@@ -17,7 +17,8 @@ RULE = ("(i) CJJ14 x4, CT14, ANSS16: a case is (config, key, database, permutati
         "from the tokens are equal (CT14, ANSS16). Non-trivial = some table has >= 12 real entries and sigma is not the "
         "identity. (ii) PiPtr, Pi2Lev, SSE-1, DP17: databases with enough array-resident blocks; the list-typed members of the "
         "index are replaced by recording lists; the per-keyword sequences of slots read by Search (a) differ between two "
-        "setups (same key where placement is drawn from `random`, fresh key for SSE-1) and (b) are not the sequential "
+        "setups (same key where placement is drawn from `random`, fresh key for SSE-1) and from a third setup made in a fresh interpreter "
+        "state (construction module reloaded, new scheme object, other entropy), and (b) are not the sequential "
         "allocation 1,2,3.. / n,..,2,1; for DP17 additionally the real entries inside the buckets read are not all in "
         "'real-first' (un-shuffled) arrangement. Each (ii) assertion is made only when the chance that correct code fails "
         "it, computed for the case, is < 1e-15; such cases are the non-trivial ones. distinct = distinct (scheme, config, "
